@@ -16,7 +16,7 @@ import common
 import dlevel
 import tlc
 
-TIERS = {"quick": dict(multi=10, maxseq=1, maxstrays=2), "thorough": dict(multi=150, maxseq=2, maxstrays=3)}
+TIERS = {"quick": dict(multi=40, maxseq=1, maxstrays=2), "thorough": dict(multi=150, maxseq=2, maxstrays=3)}
 OWN = ("C01:", "C02:", "C04:")
 
 
